@@ -217,3 +217,6 @@ import alts_c  # noqa: E402
 for _id, _a in alts_c.ALTS.items():
     if alts_c.PROPS.get(_id):
         ALTS.append(dict(id="alt3-" + _id, props=alts_c.PROPS[_id], edits=_a["edits"], why=_a["why"]))
+
+from alts_d import ALTS_D  # noqa: E402
+ALTS += ALTS_D
